@@ -74,3 +74,11 @@ PART["C10"] = {
             "after repair all rounds equal the valid chain. distinct = distinct (mode, scheme, back-end, peer behaviours, heights)",
     "assumptions": ["the harness owns the group secret, so it can make the valid chain peers serve; lying peers only alter or reorder valid beacons"],
 }
+PART["C07"] = {
+    "runs": [{"name": "beaconnet-transition", "pkg": P, "run": "^TestVF_C07_Handlers", "timeout": "30m", "timeout_thorough": "120m"}],
+    "rule": "handler-level reshare without DKG: the harness re-shares the group secret (new polynomial, same constant term) and makes core's calls (TransitionNewGroup on remainers, new Handler+Catchup on "
+            "joiners, StopAt on leavers) for shapes {same, add, remove, replace, threshold up, threshold down}, reshare issued at round 3-6 with the transition 2-4 rounds later, optional outage of one "
+            "remainer across the transition or 15% loss, 1-2 epochs; oracles: C01/C02 store oracles across the transition with the ORIGINAL public key, bounded progress of every running new-group member "
+            "after the transition, and partials signed with previous-group shares (incl. leavers') sent to nodes whose vault has switched must not be answered with success. distinct = distinct case",
+    "assumptions": ["the handler-level layer does not exercise the DKG itself (dkg and daemon engines do)"],
+}
